@@ -283,11 +283,26 @@ func acquisitionRoundRule(c *Ctx, rule string) {
 	}
 	// the round: a function with a loop that calls acq
 	var round *ssa.Function
+	// leadsToAcq: the call is the attempt, or a call of a function the round's body was split into
+	// (one call site) that makes the attempt
+	leadsToAcq := func(f *ssa.Function, call *ssa.Call) bool {
+		g := call.Call.StaticCallee()
+		if g == nil {
+			return false
+		}
+		if g == acq {
+			return true
+		}
+		return g != f && containsFn(m.bodyFns(f), g) && m.staticReach(g, false)[acq]
+	}
 	for _, f := range m.Funcs {
+		if f.Parent() != nil {
+			continue
+		}
 		for _, loop := range cfgLoops(f) {
 			for _, b := range loop {
 				for _, in := range b.Instrs {
-					if call, ok := in.(*ssa.Call); ok && call.Call.StaticCallee() == acq {
+					if call, ok := in.(*ssa.Call); ok && leadsToAcq(f, call) {
 						round = f
 					}
 				}
@@ -303,9 +318,30 @@ func acquisitionRoundRule(c *Ctx, rule string) {
 	var jitterDur, backoffDur ssa.Value
 	done := map[ssa.Instruction]bool{}
 	hasDone := func(in ssa.Instruction) bool { return done[in] }
-	for _, w := range m.waitSites(round) {
+	var roundWaits []WaitSite
+	for _, g := range m.bodyFns(round) {
+		for _, w := range m.waitSites(g) {
+			// a select inside a wait helper is represented by the helper's call site
+			if _, isSel := w.At.(*ssa.Select); isSel && g != round {
+				dup := false
+				for _, h := range m.bodyFns(round) {
+					for _, o := range m.waitSites(h) {
+						if call, ok := o.At.(*ssa.Call); ok && call.Call.StaticCallee() == g {
+							dup = true
+						}
+					}
+				}
+				if dup {
+					continue
+				}
+			}
+			roundWaits = append(roundWaits, w)
+		}
+	}
+	for _, w := range roundWaits {
 		done[w.At] = w.Done
-		if inLoop(w.At.Block()) {
+		lifted := m.liftTo(round, w.At)
+		if lifted != nil && inLoop(lifted.Block()) {
 			backoffSel, backoffDur = w.At, w.Dur
 		} else {
 			jitterSel, jitterDur = w.At, w.Dur
@@ -346,7 +382,7 @@ func acquisitionRoundRule(c *Ctx, rule string) {
 	var counter *ssa.Phi
 	var acqCall *ssa.Call
 	eachInstr(round, func(in ssa.Instruction) {
-		if call, ok := in.(*ssa.Call); ok && call.Call.StaticCallee() == acq && inLoop(in.Block()) {
+		if call, ok := in.(*ssa.Call); ok && leadsToAcq(round, call) && inLoop(in.Block()) {
 			acqCall = call
 		}
 	})
@@ -455,12 +491,157 @@ func acquisitionRoundRule(c *Ctx, rule string) {
 			boundOK = trips == 4 && step == 1 && start == 0
 		}
 	})
+	// the attempt itself (in the round function or in the function the loop body was moved to)
+	var acqInner *ssa.Call
+	m.eachUnitInstr(round, func(in ssa.Instruction) {
+		if call, ok := in.(*ssa.Call); ok && call.Call.StaticCallee() == acq {
+			if l := m.liftTo(round, in); l != nil && inLoop(l.Block()) {
+				acqInner = call
+			}
+		}
+	})
+	if best < 0 && acqCall != nil && acqInner != nil {
+		// the counter test sits in a function the loop body was moved to and leaves the loop through
+		// that function's result: identify the comparison as a value and explore under assumptions
+		var head *ssa.BasicBlock
+		for _, l := range cfgLoops(round) {
+			for _, b := range l {
+				if b == acqCall.Block() {
+					head = l[0]
+				}
+			}
+		}
+		unit := m.bodyFns(round)
+		reachesSecondAttempt := func(assume map[ssa.Value]bool, mustPass ssa.Instruction) (again bool, skipped bool) {
+			first := true
+			m.descend = func(g *ssa.Function) bool { return containsFn(unit, g) }
+			m.exploreAssuming(acqInner, assume, 0, func(in ssa.Instruction, flag int) (int, bool) {
+				if first {
+					first = false
+					return flag, false
+				}
+				if in == mustPass {
+					flag = 1
+				}
+				if in == ssa.Instruction(acqInner) {
+					again = true
+					if flag == 0 {
+						skipped = true
+					}
+					return flag, true
+				}
+				return flag, false
+			}, nil)
+			m.descend = nil
+			return
+		}
+		m.eachUnitInstr(round, func(in ssa.Instruction) {
+			bo, ok := in.(*ssa.BinOp)
+			if !ok || head == nil {
+				return
+			}
+			var ph *ssa.Phi
+			var k int64
+			phLeft := false
+			for i, x := range []ssa.Value{bo.X, bo.Y} {
+				if p, isPhi := m.traceValue(x).(*ssa.Phi); isPhi && p.Block() == head {
+					other := bo.Y
+					if i == 1 {
+						other = bo.X
+					}
+					if n, isC := constInt(other); isC {
+						ph, k, phLeft = p, n, i == 0
+					}
+				}
+			}
+			if ph == nil {
+				return
+			}
+			start, step := int64(-1), int64(-1)
+			for i, e := range ph.Edges {
+				if n, isC := constInt(e); isC && !inLoopFrom(ph.Block().Preds[i], ph.Block()) {
+					start = n
+				}
+				if b2, ok := e.(*ssa.BinOp); ok && b2.Op == token.ADD && b2.X == ssa.Value(ph) {
+					if n, isC := constInt(b2.Y); isC {
+						step = n
+					}
+				}
+			}
+			if start < 0 || step <= 0 {
+				return
+			}
+			// which value of the comparison ends the round: under it no second attempt is reachable
+			exitTruth, found := false, false
+			for _, t := range []bool{true, false} {
+				if again, _ := reachesSecondAttempt(map[ssa.Value]bool{ssa.Value(bo): t}, nil); !again {
+					exitTruth, found = t, true
+				}
+			}
+			if !found {
+				return
+			}
+			// every way from one attempt to the next evaluates it
+			if _, skipped := reachesSecondAttempt(nil, in); skipped {
+				return
+			}
+			// last counter value for which the round continues past this comparison
+			cont := !exitTruth
+			last := int64(-1)
+			op := bo.Op
+			if !phLeft { // constant on the left: mirror
+				switch op {
+				case token.LSS:
+					op = token.GTR
+				case token.LEQ:
+					op = token.GEQ
+				case token.GTR:
+					op = token.LSS
+				case token.GEQ:
+					op = token.LEQ
+				}
+			}
+			switch {
+			case op == token.LSS && cont: // i < k continues
+				last = k - 1
+			case op == token.LEQ && cont:
+				last = k
+			case op == token.GEQ && !cont: // exit when i >= k
+				last = k - 1
+			case op == token.GTR && !cont:
+				last = k
+			case op == token.EQL && !cont && k >= start && (k-start)%step == 0: // exit when i == k
+				last = k - step
+			case op == token.NEQ && cont && k >= start && (k-start)%step == 0:
+				last = k - step
+			default:
+				return
+			}
+			if last < start-step {
+				last = start - step
+			}
+			trips := (last-start)/step + 1
+			where := "before the attempt"
+			if m.dominatesLifted(round, acqInner, in) {
+				trips++
+				where = "after the attempt"
+			}
+			if best < 0 || trips < best {
+				best = trips
+				counter = ph
+				boundDesc = fmt.Sprintf("counter from %d step %d, round left when %s is %v (%s, in %s): %d attempts", start, step, m.Sym.Of(bo), exitTruth, where, shortFn(in.Parent()), trips)
+				boundOK = trips == 4 && step == 1 && start == 0
+			}
+		})
+	}
 	c.check(boundOK, rule, "at most four attempts per round in "+rn, firstInstr(round), "%s (required 4)", boundDesc)
 	// one acquisition per iteration
 	nCalls := 0
-	eachInstr(round, func(in ssa.Instruction) {
-		if call, ok := in.(*ssa.Call); ok && call.Call.StaticCallee() == acq && inLoop(in.Block()) {
-			nCalls++
+	m.eachUnitInstr(round, func(in ssa.Instruction) {
+		if call, ok := in.(*ssa.Call); ok && call.Call.StaticCallee() == acq {
+			if l := m.liftTo(round, in); l != nil && inLoop(l.Block()) {
+				nCalls++
+			}
 		}
 	})
 	c.check(nCalls == 1, rule, "one acquisition attempt per iteration in "+rn, firstInstr(round), "%d calls of %s in the loop", nCalls, shortFn(acq))
@@ -468,7 +649,7 @@ func acquisitionRoundRule(c *Ctx, rule string) {
 		c.viol(rule, "backoff wait between attempts in "+rn, firstInstr(round), "no select on time.After inside the attempt loop: retries hammer the store")
 	} else {
 		s := m.Sym.Of(backoffDur)
-		ok := s.Op == "call" && strings.HasSuffix(s.Name, "CalculateBackoff") && len(s.Args) == 2 && s.Args[0].Op == "call" && strings.HasSuffix(s.Args[0].Name, "DefaultBackoffConfig") && counter != nil && s.Args[1].V == ssa.Value(counter)
+		ok := s.Op == "call" && strings.HasSuffix(s.Name, "CalculateBackoff") && len(s.Args) == 2 && s.Args[0].Op == "call" && strings.HasSuffix(s.Args[0].Name, "DefaultBackoffConfig") && counter != nil && s.Args[1].V != nil && m.traceValue(s.Args[1].V) == ssa.Value(counter)
 		c.check(ok, rule, "backoff wait is CalculateBackoff(DefaultBackoffConfig(), attempt) in "+rn, backoffSel, "wait expression %s", s)
 		c.check(hasDone(backoffSel), rule, "backoff wait observes the context in "+rn, backoffSel, "ctx.Done() case: %v", hasDone(backoffSel))
 	}
